@@ -235,7 +235,9 @@ theorem stokesI_nonneg (ha : 0 ≤ a) (hphys : b ^ 2 + c ^ 2 + d ^ 2 ≤ a ^ 2) 
 noncomputable def dop (s : S4 ℝ) : ℝ := Real.sqrt (s.q ^ 2 + s.u ^ 2 + s.v ^ 2) / s.i
 
 /-- `degree_of_polarization` is consistent with `stokes_vector` (both are functions of the same four
-numbers — `stokes_vector_eq_*`), and for a physical input Stokes vector it is at most one. -/
+numbers — `stokes_vector_eq_*`; the first conjunct is only that rewrite, as the audit notes), and for a physical input
+Stokes vector it is at most one.  `dop` is a specification function; what the *code* computes is tied in section 8
+(`S4.dopSq` run by op `degrees`, `model_degrees_sqrt : √dopSq = dop`, `model_dopSq_tensor_le_one`). -/
 theorem dop_consistent_tensor (ha : 0 ≤ a) (hphys : b ^ 2 + c ^ 2 + d ^ 2 ≤ a ^ 2)
     (hI : 0 < stokesI xr xi yr yi zr zi wr wi a b c d) :
     dop ⟨svI xr xi yr yi zr zi wr wi a b c d, svQ xr xi yr yi zr zi wr wi a b c d,
